@@ -298,7 +298,7 @@ impl<'a> From<ReadEvent<'a>> for ParseEvents<'a> {
 
 /// A stateful, incremental Recon parser. Each call to `parse` will produce zero
 /// or more parse events which are guaranteed to be consistent.
-#[derive(Debug)]
+#[derive(Debug, Clone)]
 pub struct IncrementalReconParser {
     state: Vec<ParseState>,
     allow_comments: bool,
